@@ -47,12 +47,21 @@ class ExecBase:
         if self.spec_mode:
             return
         g = z3.simplify(goal)
-        if not z3.is_true(g) and self.ch.fresh_part:
+        if self.ch.fresh_part:
             name = '%s/%s:%s' % (self.C.key, kind, label)
-            m = {'line': self.cur_line, 'trace': list(self.st.trace)}
-            if meta:
-                m.update(meta)
-            self.obligations.append(Obligation(name, self.st.pc, goal, tags, m))
+            if z3.is_true(g):
+                # discharged by the simplifier: recorded (without its path condition) so that the clause is part of the baseline - on a
+                # changed tree the same clause may no longer be trivial, and an open verdict on it must count as a regression
+                key = (name, 'trivial')
+                seen = self.__dict__.setdefault('_trivial_seen', set())
+                if key not in seen:
+                    seen.add(key)
+                    self.obligations.append(Obligation(name, [], z3.BoolVal(True), tags, {'line': self.cur_line, 'trace': [], 'trivial': True}))
+            else:
+                m = {'line': self.cur_line, 'trace': list(self.st.trace)}
+                if meta:
+                    m.update(meta)
+                self.obligations.append(Obligation(name, self.st.pc, goal, tags, m))
         if kind == 'ensures' and _has_quantifier(goal):
             return      # exit-time clause: later clauses do not build on it, and one more quantified fact only slows them down
         self.assume(goal)
